@@ -104,7 +104,11 @@ end ClockBound.Crash
 namespace ClockBound.Crash
 open ClockBound
 
-def recCells (k : Nat) : List Nat := (List.range 6).map (fun i => k * 8 + i + 1) ++ [k % 3]
+/-- record number k; every seventh one (k % 7 = 3) has the shape of what a freshly restarted daemon
+    publishes before chronyd has answered: as-of 0/0, void-after 1000/0, bound 0, status Unknown -/
+def recCells (k : Nat) : List Nat :=
+  if k % 7 = 3 then [0, 0, 1000, 0, 0, k, 0]
+  else (List.range 6).map (fun i => k * 8 + i + 1) ++ [k % 3]
 
 inductive Prior | missing | empty | garbage | wiped | valid (gen k : Nat) | validv (version gen k : Nat)
 deriving Repr, BEq, DecidableEq, Inhabited
